@@ -6,6 +6,7 @@ import (
 	"sort"
 	"testing"
 
+	"github.com/yaricom/goNEAT/v4/neat/genetics"
 	"github.com/yaricom/goNEAT/v4/neat/network"
 	"gonum.org/v1/gonum/graph"
 	"pgregory.net/rapid"
@@ -25,6 +26,9 @@ type C11Prior struct {
 	Weights    []float64 `json:"weights"`
 	ModEnabled []bool    `json:"modules_enabled"`
 	NetId      int       `json:"net_id"`
+	// ViaOrganism: the genome belongs to an organism that expressed it in the earlier state; after the change the network
+	// is obtained through Organism.UpdatePhenotype / Phenotype instead of a direct Genesis call
+	ViaOrganism bool `json:"via_organism,omitempty"`
 }
 
 func GenC11() *rapid.Generator[C11Case] {
@@ -59,6 +63,7 @@ func GenC11() *rapid.Generator[C11Case] {
 		for _, m := range c.G.Modules {
 			p.ModEnabled = append(p.ModEnabled, m.En != (rapid.IntRange(0, 3).Draw(t, "prior module flag") == 0))
 		}
+		p.ViaOrganism = rapid.IntRange(0, 2).Draw(t, "via organism") == 0
 		c.Prior = p
 		return c
 	})
@@ -118,6 +123,7 @@ func sameIdSet(got []int64, want map[int64]bool) bool {
 
 func CheckC11(c C11Case, rec *Rec) error {
 	g := c.G.Build()
+	var viaOrg *genetics.Organism
 	if p := c.Prior; p != nil && len(p.Enabled) == len(g.Genes) && len(p.Weights) == len(g.Genes) && len(p.ModEnabled) == len(g.ControlGenes) {
 		// the genome object was expressed before in another state, then changed through its exported fields
 		for i, gn := range g.Genes {
@@ -125,6 +131,13 @@ func CheckC11(c C11Case, rec *Rec) error {
 		}
 		for i, cg := range g.ControlGenes {
 			cg.IsEnabled = p.ModEnabled[i]
+		}
+		if p.ViaOrganism {
+			if org, err := genetics.NewOrganism(1, g, 1); err == nil {
+				if _, err := org.Phenotype(); err == nil {
+					viaOrg = org
+				}
+			}
 		}
 		if _, err := g.Genesis(p.NetId); err != nil {
 			rec.Class("earlier expression failed (no enabled structure)")
@@ -140,7 +153,17 @@ func CheckC11(c C11Case, rec *Rec) error {
 			rec.Class("expressed before under the same network id")
 		}
 	}
-	net, err := g.Genesis(c.G.Id)
+	var net *network.Network
+	var err error
+	if viaOrg != nil {
+		// the organism re-expresses its changed genome
+		rec.Class("network obtained through Organism.UpdatePhenotype")
+		if err = viaOrg.UpdatePhenotype(); err == nil {
+			net, err = viaOrg.Phenotype()
+		}
+	} else {
+		net, err = g.Genesis(c.G.Id)
+	}
 	if err != nil {
 		return fmt.Errorf("Genesis returned error: %v", err)
 	}
